@@ -13,6 +13,9 @@ import JoblibModel.IOUtil
   nested <C> <level> <activeC> <activeLevel>  → <C> <level>
   chain <C> <level> <depth>                   → <C:level> for depth 0 … depth
   wenv <C> <mpNone> <daemon> <main> <lokyDepth> → <daemon> <main> <lokyDepth> of the workers
+  resize <max|-> <alive> <started 0|1> <same_args 0|1> <n>
+        the reusable executor before a call (`-` = none exists) and the n_jobs asked for
+        → <live workers during/after the call> <max_workers>
 Anything else → bad-op. -/
 open JoblibModel JoblibModel.NJobs JoblibModel.IOUtil
 open JoblibModel.Config (BackendClass)
@@ -99,6 +102,13 @@ def handle (line : String) : String :=
     | some c, some mn, some dm, some mt, some ld =>
       let w := workerEnv c ⟨mn, dm, mt, ld, 1⟩
       joinSp [showB w.daemon, showB w.mainThread, toString w.lokyDepth]
+    | _, _, _, _, _ => "bad-op"
+  | ["resize", mx, al, stt, same, n] =>
+    match optNat? mx, al.toNat?, bool? stt, bool? same, n.toNat? with
+    | some mx, some al, some stt, some same, some n =>
+      let cur : Option Pool := mx.map (fun m => ⟨m, al, stt⟩)
+      let p := submitEnsure (getReusableExecutor cur same n)
+      toString p.alive ++ " " ++ toString p.maxWorkers
     | _, _, _, _, _ => "bad-op"
   | _ => "bad-op"
 
